@@ -1077,12 +1077,19 @@ Proof.
     destruct (CR_next c c' Hc) as (Hn1 & Hn2 & Hn3). exists (counter_next c'). cbn [fst snd option_map].
     assert (Hcl : cleanb cmt = true).
     { rewrite <- Ech, <- E1 in Hl. apply cleanb_app_inv in Hl. destruct Hl as [Hl _]. apply cleanb_app_inv in Hl. exact (proj2 Hl). }
+    assert (Hclb : cleanb before = true).
+    { rewrite <- Ech, <- E1 in Hl. apply cleanb_app_inv in Hl. destruct Hl as [Hl _]. apply cleanb_app_inv in Hl. exact (proj1 Hl). }
+    assert (Hcln : cleanb nl = true).
+    { rewrite <- Ech in Hl. apply cleanb_app_inv in Hl. exact (proj2 Hl). }
+    assert (HP : forall a y, R (a ++ placeholder w_LINECOMMENT (Z.to_N (counter_next c)) ++ y) =
+                             R a ++ placeholder w_LINECOMMENT (shift d (Z.to_N (counter_next c))) ++ R y).
+    { apply Hph_shifted; [left; reflexivity|exact Hn3]. }
     rewrite Hn2. subst cmt. split; [|split; [exact Hn1|]].
     + f_equal; [f_equal|].
-      * symmetry. apply replace_clean; [reflexivity| |exact Hl]. apply Hph_shifted; [left; reflexivity|exact Hn3].
+      * rewrite HP, (rename_clean d _ Hclb), (rename_clean d _ Hcln). reflexivity.
       * rewrite (rename_clean d _ Hcl). reflexivity.
-    + intros He y. unfold replace_all. apply (replace_endcut c_slash y' _ (placeholder w_LINECOMMENT (shift d (Z.to_N (counter_next c))))); [reflexivity| |exact He].
-      apply Hph_shifted; [left; reflexivity|exact Hn3].
+    + intros He y. rewrite <- Ech in He. apply endn_suffix in He. pose proof (endn_rsafe nl He y) as Hy.
+      rewrite <- !app_assoc. rewrite !HP, Hy, <- !app_assoc. reflexivity.
   - exists c'. cbn [fst snd option_map]. rewrite (rename_clean d l Hl). split; [reflexivity|]. split; [exact Hc|apply endn_rsafe].
 Qed.
 
